@@ -1389,7 +1389,7 @@ func (g *Gen) nextInstr(x *ssa.Next) {
 		g.note("map range with unused key: iteration order/visited set not modelled for this loop")
 		return
 	}
-	g.assume(imp(okT.S, fmt.Sprintf("(and (select %s %s) (not (select %s %s)))", dom, kT.S, seen, kT.S)))
+	g.assume(imp(okT.S, fmt.Sprintf("(and (not (= %s 0)) (select %s %s) (not (select %s %s)))", m, dom, kT.S, seen, kT.S)))
 	g.assume(imp(not(okT.S), fmt.Sprintf("(forall ((k %s)) (=> (select %s k) (select %s k)))", ks, dom, seen)))
 	if !strings.HasPrefix(vs, "S_") && vT.Sort == vs {
 		g.assume(imp(okT.S, fmt.Sprintf("(= %s (select (select %s %s) %s))", vT.S, g.sv(mv, "(Array Int (Array "+ks+" "+vs+"))"), m, kT.S)))
